@@ -57,6 +57,21 @@ func biasedSpec(t *core.Tape, ts *world.TypeSpec) *world.ResSpec {
 		}
 	}
 
+	// an empty value with room left (what ids[:0] or make([]T, 0, n) leave behind)
+	if t.Bool(1, 4) {
+		for _, a := range ts.Attrs {
+			if a.Kind == world.KBytes && !a.Nullable && t.Bool(1, 2) {
+				rs.Vals[a.Name] = make([]byte, 0, 8)
+			}
+		}
+
+		for _, r := range ts.Rels {
+			if !r.ToOne && t.Bool(1, 2) {
+				rs.Vals[r.Name] = make([]string, 0, 8)
+			}
+		}
+	}
+
 	return rs
 }
 
@@ -77,6 +92,20 @@ func runC18(t *core.Tape, st *core.Stats) *core.Violation {
 	srcSoft := t.Bool(1, 2)
 
 	src, p, err := materialise(rs, !srcSoft)
+
+	if srcSoft && p == nil && err == nil && t.Bool(1, 4) {
+		// a soft resource whose type was built from a struct (it carries a NewFunc)
+		p = core.Call(func() {
+			var bt jsonapi.Type
+
+			if bt, err = ts.Build(); err == nil {
+				src = rs.Soft(bt)
+			}
+		})
+
+		st.Inc("probe:soft-of-struct-built-type")
+	}
+
 	if p != nil {
 		return viol(p18, "no-panic", p.Func, "materialise:"+p.Class, "building %s panicked: %s", rs.Describe(), p.Value)
 	}
@@ -418,6 +447,39 @@ func mutate(t *core.Tape, st *core.Stats, ts *world.TypeSpec, s *side) (desc, cl
 		}
 
 		return done, cls, true, p
+	case op < 6 && t.Bool(1, 2): // append through a slice obtained from Get, then Set it back
+		var cands []string
+
+		for _, n := range attrNames {
+			if attrs[n].Type == world.KBytes && !attrs[n].Nullable {
+				cands = append(cands, n)
+			}
+		}
+
+		for _, n := range relNames {
+			if !rels[n].ToOne {
+				cands = append(cands, n)
+			}
+		}
+
+		if len(cands) == 0 {
+			return "", "", false, nil
+		}
+
+		n := cands[t.Draw(len(cands))]
+		mark := byte('A' + t.Draw(26))
+
+		p = core.Call(func() {
+			switch v := r.Get(n).(type) {
+			case []string:
+				r.Set(n, append(v, string(mark)))
+			case []byte:
+				r.Set(n, append(v, mark))
+			}
+		})
+		st.Inc("probe:mutate-append-through-get")
+
+		return fmt.Sprintf("Set(%q, append(Get(%q), %q))", n, n, string(mark)), "append-through-get", true, p
 	case op < 7: // marshal with all relationship data: sorts to-many IDs in place
 		fields := append(append([]string{}, attrNames...), relNames...)
 		relData := map[string][]string{}
